@@ -761,7 +761,11 @@ impl Decompressor {
                     decompressed_ref.len()
                 };
 
-                let is_packed = decompressed_ref.len() * 4 >= expected_ref_len
+                // Only a compressed part (metadata = unpacked size) can hold 2-bit packed data; for a part
+                // stored raw the expected length IS the actual length and the test below would fire for
+                // every reference of 1 or 2 bases and turn it into zeros.
+                let is_packed = ref_metadata != 0
+                    && decompressed_ref.len() * 4 >= expected_ref_len
                     && decompressed_ref.len() * 4 < expected_ref_len + 8;
 
                 if self.config.verbosity > 2 {
